@@ -78,6 +78,17 @@ pub fn world(variant: u64) -> Sys {
     farm(&mut s, &u4, "f1", 1, 5, coin(8000, "uweth"));
     let second_owner = if variant % 2 == 1 { u4.clone() } else { u5.clone() };
     farm(&mut s, &second_owner, "f2", 1, 5, coin(12000 + v, "uusd"));
+    if variant >= 1000 {
+        // the owner raises the limit to twelve farms per LP token; ten more short farms, all expiring together with f1 and f2
+        let fa = s.farm.clone();
+        s.exec(&o, &fa, &fm::ExecuteMsg::UpdateConfig { fee_collector_addr: None, epoch_manager_addr: None, pool_manager_addr: None, create_farm_fee: None,
+            max_concurrent_farms: Some(12), max_farm_epoch_buffer: None, min_unlocking_duration: None, max_unlocking_duration: None, farm_expiration_time: None,
+            emergency_unlock_penalty: None }, &[]).unwrap();
+        for k in 3..=12u128 {
+            let who = if k % 2 == 0 { u4.clone() } else { u5.clone() };
+            farm(&mut s, &who, &format!("f{k:02}"), 1, 5, coin(6000 + k, "uusdt"));
+        }
+    }
     let fa = s.farm.clone();
     s.exec(&u3, &fa, &fm::ExecuteMsg::ManagePosition { action: fm::PositionAction::Create { identifier: Some("carol".into()), unlocking_duration: YEAR, receiver: None } }, &[coin(100_000, lpd.clone())]).unwrap();
     s.exec(&lp, &fa, &fm::ExecuteMsg::ManagePosition { action: fm::PositionAction::Create { identifier: Some("bob".into()), unlocking_duration: DAY, receiver: None } }, &[coin(300_000, lpd.clone())]).unwrap();
@@ -130,6 +141,13 @@ fn case_create_autoclose_same_id(s: &Sys) -> Case {
     if let Target::Fm(fm::ExecuteMsg::ManageFarm { action: fm::FarmAction::Create { params } }) = &mut c.target {
         params.farm_identifier = Some("f1".into());
     }
+    c
+}
+
+/// twelve expired farms closed by one creation (the limit was raised to twelve): a failing refund of any of them is tolerated
+fn case_create_autoclose12(s: &Sys) -> Case {
+    let mut c = case_create_autoclose(s);
+    c.kind = "fm_create_farm_autoclose12".into();
     c
 }
 
@@ -204,4 +222,5 @@ pub fn run(rng: &mut StdRng, thorough: bool, t: &mut Tracer) {
         run_case(t, v, 40 * DAY, &case_create_autoclose_same_id);
         run_case(t, v, 40 * DAY, &move |s: &Sys| cases(s).into_iter().find(|c| c.kind == "fm_close_farm").unwrap());
     }
+    run_case(t, 1000, 40 * DAY, &case_create_autoclose12);
 }
